@@ -27,6 +27,7 @@ from .. import absx, facts, ir, report, tsrules, encrules
 class VariantAdapter(tsrules.Adapter):
     observers = ('index',)
     empty_obs = (-1,)
+    derived = {'empty': lambda obs: obs[0] == -1}
     move_assign_empties_source = False     # a moved-from Variant keeps its (moved-from) alternative
 
     def __init__(self, alt_types):
@@ -170,6 +171,9 @@ def explore(chk, db, prefix=''):
 
 
 def rules(chk, db):
+    tsrules.noexcept_rule(chk, db, 'NX', ('nop::Variant', 'nop::detail::Union'), minimum=0,
+                          text='no Variant / Union member that constructs, assigns or visits an alternative is declared noexcept unless every operation it calls is')
+    report.selftest(chk, lambda sc, fdb: tsrules.noexcept_rule(sc, fdb, 'NX', ('nop::fx::Holder',)), 'c12.cpp', {'NX': 1})
     chk.rule('MO', 'index_ is declared (hence initialised) before value_', minimum=1)
     got = explore(chk, db)
     if got is None:
